@@ -1707,7 +1707,17 @@ class Emitter:
                     p = p.inner
                 binds = []
                 tests = []
-                if p.kind == "ptstruct" and p.segs[-1] in ("Ok", "Err") and len(p.elems) == 1:
+                if p.kind == "por" and all(a.kind == "pwild" or (a.kind == "ptstruct" and a.segs[-1] in ("Ok", "Err") and len(a.elems) == 1) for a in p.alts):
+                    # `Err(_) | Ok(_) => ..`: the alternatives of this side, none of which may bind a variable
+                    mine = [a for a in p.alts if a.kind == "pwild" or a.segs[-1] == tag]
+                    if not mine:
+                        return arm(j + 1)
+                    alt_tests = [None if a.kind == "pwild" else self.pat_test(a.elems[0], v, inner, binds) for a in mine]
+                    if binds:
+                        raise EmitError("an or-pattern that binds a variable in a match on a Result")
+                    if all(t is not None for t in alt_tests):
+                        tests.append("(" + " || ".join(alt_tests) + ")")
+                elif p.kind == "ptstruct" and p.segs[-1] in ("Ok", "Err") and len(p.elems) == 1:
                     if p.segs[-1] != tag:
                         return arm(j + 1)
                     tt = self.pat_test(p.elems[0], v, inner, binds)
